@@ -15,14 +15,14 @@ FUNCTIONS = ['bycycle.group.features.compute_features_2d', 'bycycle.group.featur
              'bycycle.group.utils.check_kwargs_shape', 'bycycle.group.utils.progress_bar',
              'bycycle.objs.fit.BycycleGroup.fit']
 BOUNDS = {'quick': '1..3 rows x 3 samples, options None / dict / per-row list, progress None / tqdm, every n_jobs >= 1 or -1, every completion order',
-          'thorough': '1..4 rows'}
+          'thorough': '1..7 rows (all 5040 completion orders)'}
 OUTSIDE = 'real OS-level scheduling (the stdlib Pool ordering contract is trusted); more rows'
 STUBS = ['compute_features -> token recording its arguments', 'multiprocessing.Pool -> PoolModel with solver-chosen completion order', 'cpu_count -> arbitrary positive integer', 'tqdm.tqdm -> pass-through iterator']
 ASSUMPTIONS = ['equal arguments => equal analysis (C15)']
 
 
 def configs(tier):
-    top = 3 if tier == 'quick' else 4
+    top = 3 if tier == 'quick' else 7
     out = []
     for rows in range(1, top + 1):
         for kw in ('none', 'dict', 'list'):
@@ -38,7 +38,7 @@ def configs(tier):
 
 
 def cost(cfg):
-    return [1, 1, 2, 6, 24][cfg['rows']]
+    return [1, 1, 2, 6, 24, 120, 720, 5040][cfg['rows']]
 
 
 def install_pool(ctx, tag='perm'):
